@@ -1,4 +1,4 @@
-"""Failing inputs for the findings F1..F21 (F2, F18 are open), run against the real code (not part of any check).
+"""Failing inputs for the findings F1..F21, F36, F37 (F18 is open), run against the real code (not part of any check).
 usage: /venv/bin/python findings/repro.py     -> prints DEFECT / ok per finding"""
 import signal, sys
 from fractions import Fraction as F
@@ -205,7 +205,27 @@ def f21():
     return True if not bad else f"(A*B)(u) != A(u)*B(u) at {len(bad)} of 13 nodes, e.g. u = {bad[0]}: {C(bad[0])} vs {A(bad[0]) * B(bad[0])}"
 
 
+
+def f36():
+    """C20: crossing segments, the first over an interval with a + (b - a) > b: ValueError before 28f8659"""
+    a, b = -1.9687140472456057, 1.0365926484812507
+    A = Curve([a, a, b, b], np.array([(0.0, 0.0), (1.0, 1.0)]))
+    B = Curve([0.0, 0.0, 1.0, 1.0], np.array([(0.0, 1.0), (1.0, 0.0)]))
+    pairs = Intersection.curve_and_curve(A, B)
+    return True if len(pairs) == 1 else pairs
+
+
+def f37():
+    """C03 / C01: valid(nan) was True and span(nan) never returned, before fe9c32a"""
+    kv = KnotVector([0.0, 0.0, 0.5, 1.0, 1.0])
+    return True if kv.valid(float("nan")) is False else "valid(nan) is True: Curve(kv, ...)(nan) hangs"
+
+
 for i, fn in enumerate([f1, f2, f3, f4, f5, f6, f7, f8, f9, f10, f11, f12, f13, f14, f15, f16, f17, f18, f19, f20, f21], 1):
     if len(sys.argv) > 1 and f"F{i}" not in sys.argv[1:]:
         continue
     t(f"F{i}", fn)
+for name, fn in (("F36", f36), ("F37", f37)):
+    if len(sys.argv) > 1 and name not in sys.argv[1:]:
+        continue
+    t(name, fn)
